@@ -289,3 +289,20 @@ Example gauss_moment_laws_satisfiable :
   gauss_moment_laws KQ pQ (fun n => fmul KQ (Q2Qc 3) (mom KQ vQ n)).
 Proof. apply (mom_satisfies_laws KQ KQf pQ vQ Hpv_Q). Qed.
 End Examples.
+
+(* the same, packed for Props/BRIDGE.v *)
+Lemma bridge_hypotheses_satisfiable_packed :
+  exists (F : Type) (K : Fops F) (p v : F) (I : list F -> F),
+    is_field K /\ fmul K (fmul K (fadd K (f1 K) (f1 K)) p) v = f1 K /\
+    plinear K I /\ kills_derivatives K p I /\ I [f1 K] <> f0 K.
+Proof.
+  set (KQ := QcK true (Q2Qc 0) (fun x => x) (fun x => x) (fun x => x) (fun _ x => x)).
+  assert (KQf : is_field KQ) by apply QcK_field.
+  assert (Hpv : fmul KQ (fmul KQ (fadd KQ (f1 KQ) (f1 KQ)) (Q2Qc 1)) (Q2Qc (1 # 2)) = f1 KQ)
+    by (apply Qc_is_canon; vm_compute; reflexivity).
+  exists Qc, KQ, (Q2Qc 1), (Q2Qc (1 # 2)), (fun f => fmul KQ (Q2Qc 3) (E KQ (Q2Qc (1 # 2)) f)).
+  split; [exact KQf|]. split; [exact Hpv|]. split; [|split].
+  - apply (cE_linear KQ KQf).
+  - apply (kills_all_kills KQ). apply (cE_kills KQ KQf _ _ Hpv).
+  - rewrite (E_one KQ KQf). intro H. apply (f_equal this) in H. vm_compute in H. discriminate H.
+Qed.
